@@ -783,18 +783,26 @@ func c04Interrupt(r *vlib.Run) {
 // round. Oracle as in the e2e tier: every appended line exactly once, in
 // order, 100% transmitted (about 300 lines/s, far below the queue capacity).
 func c04Housekeeping(r *vlib.Run) {
-	n := r.N(2, 12)
+	n := r.N(4, 12)
 	dir, _ := filepath.EvalSymlinks(r.Dir("c04hk"))
 	vlib.Parallel(n, 4, func(i int) {
 		path := filepath.Join(dir, fmt.Sprintf("h%d.log", i))
 		os.WriteFile(path, []byte("OLD-0 keep\nOLD-1 keep\n"), 0644)
 		defer os.Remove(path)
+		followed := path
+		if i%2 == 1 {
+			// the followed name is a symbolic link to the file (current.log -> app-0001.log)
+			followed = filepath.Join(dir, fmt.Sprintf("current%d.log", i))
+			os.Symlink(filepath.Base(path), followed)
+			defer os.Remove(followed)
+			r.Count("housekeeping_follows_through_a_symbolic_link", 1)
+		}
 		home := serverlessHome(r)
 		var pid int
 		var pmu sync.Mutex
 		delay := []int{25, 60, 8, 120}[i%4]
 		cmd := vlib.Cmd{Path: r.Bin("dtail"), Dir: home, Watchdog: 120 * time.Second,
-			Args:    []string{"--cfg", "none", "--logger", "stdout", "--logLevel", "error", "--noColor", "--shutdownAfter", "10", "--files", path},
+			Args:    []string{"--cfg", "none", "--logger", "stdout", "--logLevel", "error", "--noColor", "--shutdownAfter", "10", "--files", followed},
 			Env:     []string{"HOME=" + home, fmt.Sprintf("VERIF_POINTS=fs.eof=sleep(%d)", delay)},
 			OnStart: func(p int) { pmu.Lock(); pid = p; pmu.Unlock() }}
 		var expected []string
